@@ -1931,7 +1931,8 @@ class _AnsiSettingPoint:
     def _scrub_ansi_settings(
         settings:Union[AnsiFormat, AnsiSetting, str, int, list, tuple],
         make_unique=False,
-        parsed_ids:List[int]=[]
+        parsed_ids:List[int]=[],
+        combine_ints=True
     ) -> List[AnsiSetting]:
         if not isinstance(settings, list) and not isinstance(settings, tuple):
             settings = [settings]
@@ -1963,7 +1964,11 @@ class _AnsiSettingPoint:
                     raise ValueError("Settings list contains itself - cannot unpack")
 
                 # At this point, setting will be valid list or tuple - recursive call to unpack
-                settings_out += __class__._scrub_ansi_settings(setting, make_unique, parsed_ids)
+                # (integers are left as they are so that a run of them may continue across nested lists)
+                settings_out += __class__._scrub_ansi_settings(setting, make_unique, parsed_ids, False)
+
+        if not combine_ints:
+            return settings_out
 
         # settings_out is now a list of AnsiSettings and integers - parse for integers and combine int AnsiSetting
         current_ints = []
